@@ -172,18 +172,19 @@ NOT_YET.update({
     "C19": "counter half proved (Props/C19Counter.lean); note half depends on the Note layer",
 })
 
-CV = "NsyncVerif.Cv."
+CV = "NsyncVerif.CvFix."
 PROPS["C04"] = {
-    "imports": ["NsyncVerif.Props.C04"],
-    "theorems": [CV + t for t in ["C04_queue_inv", "C04_spinlock_excl", "C04_wait_atomic", "C04_unlink_once_partial", "C04_remove_count_handshake",
-                 "C04_unlink_once_full_false", "C04_outcome_partial", "C04_exitUnl_is_unl", "C04_signal", "C04_broadcast", "C04_broadcast_unlinks_all", "C04_no_lost_wake"]],
+    "imports": ["NsyncVerif.Props.C04Fix"],
+    "theorems": [CV + t for t in ["C04_queue_inv", "C04_spinlock_excl", "C04_wait_atomic", "C04_unlink_once", "C04_unlink_once_full_true", "C04_unlinker_by_status",
+                 "C04_remove_count_handshake", "C04_outcome_partial", "C04_exitUnl_is_unl", "C04_outcome", "C04_waker_unlinked_is_ready", "C04_dequeue_waits_for_waker",
+                 "C04_signal", "C04_broadcast", "C04_broadcast_unlinks_all", "C04_no_lost_wake", "C04_f3_schedule_fixed", "C04_f3_old_behaviour_rejected"]],
     "layers": ["cv", "mux"],
-    "oracles": {"swallowed-wakeup", "waitn-swallowed-wakeup", "stuck", "steplimit", "early-timeout", "bad-cancel", "bad-result", "panic", "crash"},
+    "oracles": {"swallowed-wakeup", "dead-object", "stuck", "steplimit", "early-timeout", "bad-cancel", "bad-result", "panic", "crash"},
     "plan": {"quick": [("cv", 120, 8), ("cv_raw", 60, 8), ("cv_rsignal", 60, 8), ("waitn_cv", 80, 8)],
              "thorough": [("cv", 1200, 16), ("cv_raw", 600, 16), ("cv_rsignal", 600, 16), ("waitn_cv", 800, 16)]},
-    "extra_corpus": [],
-    "level_text": "Kernel-checked theorems over the Cv model (cv.c and sem_wait.c statement by statement: cv word, queue, pooled waiter records with remove_count and bare nsync_waiter_s records of nsync_wait_n, private to-wake lists, transfer to the mutex queue; any number of threads; both semaphore flavours): queue/non-empty-bit invariant, spinlock exclusion, enqueue-before-release (wait is atomic w.r.t. wakers), signal unlinks the first waiter and, if it is a reader, every reader plus at most one other, broadcast unlinks every waiter enqueued before its first load, an unlinked record is woken (flag cleared and semaphore posted) or its waker is still in flight (no lost wake-up), the remove_count handshake, and a wait returns non-zero only if it unlinked ITSELF while a waker-unlinked wait returns 0 — the last two for pooled (nsync_cv_wait*) records. Tied to the code by lockstep replay of the cv / cv_raw / cv_rsignal / waitn_cv families through the Cv acceptor.",
-    "level_note": "C04_unlink_once / C04_outcome are FALSE on the current code for nsync_wait_n records (known finding F3): the full statement is kept as a def, its negation is proved on a concrete accepted trace (C04_unlink_once_full_false), the proved theorems carry the hypothesis 'pooled record', and the check prints KNOWN-FINDING for the executions in which the Cv acceptor's ghost flag shows a record unlinked twice. Transferred waiters are handed to the mutex queue (C02). The mutex is abstract in this layer. Fair termination is a paper step.",
+    "harness_args": ["checkplain=1"],
+    "level_text": "Kernel-checked theorems over the CvFix model (cv.c — with the repair of defect F3 — and sem_wait.c statement by statement: cv word, queue, pooled waiter records with remove_count and bare nsync_waiter_s records of nsync_wait_n, private to-wake lists, transfer to the mutex queue; any number of threads; both semaphore flavours): queue/non-empty-bit invariant, spinlock exclusion, enqueue-before-release (wait is atomic w.r.t. wakers), signal unlinks the first waiter and, if it is a reader, every reader plus at most one other, broadcast unlinks every waiter enqueued before its first load, an unlinked record is woken (flag cleared and semaphore posted) or its waker is still in flight (no lost wake-up), every wait instance is unlinked at most once, by a waker xor by itself — for ALL record kinds (C04_unlink_once) —, a cv wait returns non-zero only if it unlinked itself, and for nsync_wait_n cv_dequeue reports 'still enqueued' exactly when the record was unlinked by its owner (a waker-unlinked record is reported as ready: C04_outcome). Tied to the code by lockstep replay of the cv / cv_raw / cv_rsignal / waitn_cv families (incl. cancellable waits) through the CvFix acceptor, with the swallowed-wake-up and dead-object oracles on the implementation side.",
+    "level_note": "On the pinned tree C04_unlink_once / C04_outcome were false for nsync_wait_n records (defect F3, now fixed in /repo: the old Cv model with the refutation is kept in the library as Props/C04.lean, the F3 schedule is a corpus regression). Transferred waiters are handed to the mutex queue (C02). The mutex is abstract in this layer. Fair termination is a paper step.",
 }
 PROPS["C08"] = {
     "imports": ["NsyncVerif.Props.C08"],
